@@ -20,6 +20,7 @@ inductive Err where
   | needPos      -- "Must have pos_label in y values"
   | tooMany      -- "Must have no more than two unique y values"
   | empty        -- "Empty y_pred passed to selection_rate function." / numpy error on empty
+  | inconsistent -- sklearn `check_consistent_length`: "Found input variables with inconsistent numbers of samples"
 deriving Repr, DecidableEq
 
 def Err.fmt : Err → String
@@ -27,6 +28,7 @@ def Err.fmt : Err → String
   | .needPos => "err:needpos"
   | .tooMany => "err:toomany"
   | .empty => "err:empty"
+  | .inconsistent => "err:inconsistent"
 
 /-- insertion into a strictly increasing list (np.unique = sorted distinct values) -/
 def insertSorted (x : Int) : List Int → List Int
